@@ -223,6 +223,88 @@ theorem PG_none (b : Buf) (front : Int → Int → SimCell) : PG rw v enc fb scr
 theorem resize_noop (s : Sim) (hpw : s.physw = s.back.w) (hph : s.physh = s.back.h) : s.resize = s := by
   unfold Sim.resize; simp [hpw, hph]
 
+/-! ### LockRegion (screen.go:424, `Tcell.lockRowsG`): a composition of LockCell / UnlockCell / SetDirty(true) steps, each of
+which keeps the size and the stored content and only makes the ghost forget -/
+
+/-- a buffer step that keeps `CI` whatever the front buffer is -/
+def LStep (b b' : Buf) : Prop :=
+  b'.w = b.w ∧ b'.h = b.h ∧ ((∀ x y, WOk rw (b.cells x y)) → ∀ x y, WOk rw (b'.cells x y)) ∧
+  ∀ g, Props.C08.GhostInv b g → ∃ g', Props.C08.GhostInv b' g' ∧ ∀ x y c, g' x y = some c → g x y = some c
+
+theorem LStep.refl (b : Buf) : LStep rw b b := ⟨rfl, rfl, fun h => h, fun g hg => ⟨g, hg, fun _ _ _ h => h⟩⟩
+
+theorem LStep.trans {b1 b2 b3 : Buf} (h1 : LStep rw b1 b2) (h2 : LStep rw b2 b3) : LStep rw b1 b3 := by
+  obtain ⟨w1, hh1, k1, g1⟩ := h1
+  obtain ⟨w2, hh2, k2, g2⟩ := h2
+  refine ⟨w2.trans w1, hh2.trans hh1, fun h => k2 (k1 h), ?_⟩
+  intro g hg
+  obtain ⟨ga, hga, la⟩ := g1 g hg
+  obtain ⟨gb, hgb, lb⟩ := g2 ga hga
+  exact ⟨gb, hgb, fun x y c h => la x y c (lb x y c h)⟩
+
+theorem lstep_lockCell (b : Buf) (x y : Int) : LStep rw b (b.lockCell x y) := by
+  refine ⟨lockCell_w .., lockCell_h .., ?_, ?_⟩
+  · intro hw i j; rw [lockCell_cells]; split
+    · exact wok_setLock rw _ _ (hw i j)
+    · exact hw i j
+  · intro g hg
+    exact ⟨g, Props.C08.ghostInv_step rw b g (.lockCell x y) hg, fun _ _ _ h => h⟩
+
+theorem lstep_unlockCell (b : Buf) (x y : Int) : LStep rw b (b.unlockCell x y) := by
+  refine ⟨unlockCell_w .., unlockCell_h .., ?_, ?_⟩
+  · intro hw i j; rw [unlockCell_cells]; split
+    · exact wok_markDirty rw _ (wok_setLock rw _ _ (hw i j))
+    · exact hw i j
+  · intro g hg
+    refine ⟨g.step b (b.unlockCell x y) (.unlockCell x y), Props.C08.ghostInv_step rw b g (.unlockCell x y) hg, ?_⟩
+    intro i j cc hc
+    simp only [Ghost.step] at hc
+    split at hc
+    · dsimp only at hc
+      split at hc
+      · exact absurd hc (by simp)
+      · exact hc
+    · exact hc
+
+theorem lstep_setDirtyTrue (b : Buf) (x y : Int) : LStep rw b (b.setDirty x y true) := by
+  refine ⟨by simp, by simp, ?_, ?_⟩
+  · intro hw i j; rw [setDirty_true_cells]; split
+    · exact wok_markDirty rw _ (hw i j)
+    · exact hw i j
+  · intro g hg
+    refine ⟨g.step b (b.setDirty x y true) (.setDirty x y true), Props.C08.ghostInv_step rw b g (.setDirty x y true) hg, ?_⟩
+    intro i j cc hc
+    simp only [Ghost.step] at hc
+    split at hc
+    · dsimp only at hc
+      split at hc
+      · simp at hc
+      · exact hc
+    · exact hc
+
+theorem lstep_lockRow (b : Buf) (x y : Int) (lock : Bool) : ∀ n, LStep rw b (lockRow b x y lock n) := by
+  intro n
+  induction n with
+  | zero => exact LStep.refl rw b
+  | succ n ih =>
+    simp only [lockRow]
+    split
+    · exact ih.trans rw (lstep_lockCell rw _ _ _)
+    · exact ih.trans rw (lstep_unlockCell rw _ _ _)
+
+theorem lstep_lockRowsG (b : Buf) (x y w : Int) (lock : Bool) : ∀ m, LStep rw b (lockRowsG b x y w lock m) := by
+  intro m
+  induction m with
+  | zero => exact LStep.refl rw b
+  | succ m ih =>
+    simp only [lockRowsG]
+    have h1 := ih.trans rw (lstep_lockRow rw (lockRowsG b x y w lock m) x (y + m) lock w.toNat)
+    split
+    · unfold redirtyLeft; split
+      · exact h1.trans rw (lstep_setDirtyTrue rw _ _ _)
+      · exact h1
+    · exact h1
+
 /-! ### one operation -/
 
 theorem stepS_inv (hrw : RwOk rw) (hv1 : v.lastColClean = true) (hv2 : v.setSizeEvent = true) (s : Sim) (op : SimOp)
@@ -301,6 +383,16 @@ theorem stepS_inv (hrw : RwOk rw) (hv1 : v.lastColClean = true) (hv2 : v.setSize
         · exact absurd hc (by simp)
         · exact hc
       · exact hc
+  | lockRegion x y w hh lock =>
+    obtain ⟨e1, e2, k, gg⟩ := lstep_lockRowsG rw s.back x y w lock hh.toNat
+    obtain ⟨g', hg', le⟩ := gg g hg
+    refine ⟨⟨hst, hfb, ?_, ?_, k hw, g', hg', ?_⟩, hcl⟩
+    · show s.physw = (lockRowsG s.back x y w lock hh.toNat).w; rw [e1]; exact hpw
+    · show s.physh = (lockRowsG s.back x y w lock hh.toNat).h; rw [e2]; exact hph
+    · intro i j cc hri hc
+      have hri' : s.back.inRange i j := by simpa [Sim.stepS, inRange_iff, e1, e2] using hri
+      show s.front i j = renderC rw v enc fb scr (lockRowsG s.back x y w lock hh.toNat).w i cc
+      rw [e1]; exact hpg i j cc hri' (le i j cc hc)
   | present =>
     show SInv rw v enc fb scr ((s.resize).draw v enc)
     rw [resize_noop s hpw hph]
